@@ -34,6 +34,7 @@ type FuncContract struct {
 	Assumes    []*Clause // heap facts assumed at entry and NOT checked at call sites (unverified heap invariants; listed as assumptions)
 	Ensures    []*Clause
 	Invariants map[int][]*Clause
+	BackEdges  map[int][]*Clause // "at_backedge@k e": e holds whenever control returns to the head of loop k (end of every iteration, every continue)
 	Decreases  map[int]*Clause
 	Throws     []*Clause
 	Unwind     []*Clause
@@ -47,6 +48,7 @@ type FuncContract struct {
 	Logical    bool    // deterministic function of its arguments (no heap): an uninterpreted function in VCs
 	PureIf     *Clause // the function writes nothing visible to callers when this holds at entry
 	NoSafety   bool // do not emit safety obligations (function only used as a callee contract)
+	ExactAppend bool // append keeps the prefix / the rest of an array appended to in place (quantified facts, only where a proof needs them)
 	AtCalls    []*CallSpec // "at_call F : expr": expr holds in the state in which F is called (args as arg0..)
 	Calls      []*CallSpec
 	OnlyAt     []string // "p.f": of field f (of p's struct type) only the object p is written; all other objects keep f
@@ -101,6 +103,9 @@ type GlobalsReadonly struct {
 	Props  []string
 	File   string
 	Line   int
+	// Kind "" = globals_readonly; "native_closures" = no function literal of type
+	// func(FunctionCall) Value captures a value through which a runtime can be reached
+	Kind string
 }
 
 // SpecFunc is a specification function: either a macro over contract expressions or a
@@ -333,6 +338,19 @@ func (cs *ContractSet) parseFile(path, pkg string) error {
 			cs.GlobalsRO = append(cs.GlobalsRO, gr)
 			lastText = nil
 			cur = nil
+		case "native_closures":
+			// native_closures[P] except=fn1,fn2 : native function values are shared by Copy()
+			// between the original and the copy, so no function literal of the native function
+			// type may capture a runtime, object or value (except in the listed functions)
+			gr := &GlobalsReadonly{Pkg: pkg, Props: props, File: path, Line: line, Kind: "native_closures"}
+			for _, f := range strings.Fields(rest) {
+				if strings.HasPrefix(f, "except=") {
+					gr.Except = strings.Split(strings.TrimPrefix(f, "except="), ",")
+				}
+			}
+			cs.GlobalsRO = append(cs.GlobalsRO, gr)
+			lastText = nil
+			cur = nil
 		case "stabletypes":
 			// stabletypes[P] prefix=node files=cmpl_parse.go : every field of every struct type
 			// whose name starts with the prefix is stable; stores in the listed files are exempt
@@ -422,6 +440,14 @@ func (cs *ContractSet) parseFile(path, pkg string) error {
 					cl.Loop = 1
 				}
 				cur.Invariants[cl.Loop] = append(cur.Invariants[cl.Loop], cl)
+			case "at_backedge":
+				if loop == 0 {
+					cl.Loop = 1
+				}
+				if cur.BackEdges == nil {
+					cur.BackEdges = map[int][]*Clause{}
+				}
+				cur.BackEdges[cl.Loop] = append(cur.BackEdges[cl.Loop], cl)
 			case "decreases":
 				if loop == 0 {
 					cl.Loop = 1
@@ -454,6 +480,8 @@ func (cs *ContractSet) parseFile(path, pkg string) error {
 				cur.Pure = true
 			case "pure_if":
 				cur.PureIf = cl
+			case "exact_append":
+				cur.ExactAppend = true
 			case "nosafety":
 				cur.NoSafety = true
 			case "at_call":
